@@ -274,6 +274,12 @@ func (l *log) Get(offset int64) (message.Message, error) {
 	if err == index.ErrOffsetAfterEnd && segmentIndex < len(l.readers)-1 {
 		return msg, index.ErrOffsetNotFound
 	}
+	if err == index.ErrOffsetIndexEmpty && offset == message.OffsetNewest {
+		// the head segment is empty (e.g. the tail was deleted), the newest message is in an older segment
+		for i := segmentIndex - 1; i >= 0 && err == index.ErrOffsetIndexEmpty; i-- {
+			msg, err = l.readers[i].Get(offset)
+		}
+	}
 	return msg, err
 }
 
@@ -339,9 +345,17 @@ func (l *log) GetByTime(start time.Time) (message.Message, error) {
 			// time is between end of this and begin next
 			if i < len(l.readers)-1 {
 				nextRdr := l.readers[i+1]
-				return nextRdr.Get(message.OffsetOldest)
+				if msg, err := nextRdr.Get(message.OffsetOldest); err != index.ErrOffsetIndexEmpty {
+					return msg, err
+				}
+				// the next (head) segment is empty, nothing is after this time
 			}
 			return message.Invalid, errTimeNotFound
+		case index.ErrTimeIndexEmpty:
+			// an empty head segment (e.g. the tail was deleted), look in the older segments
+			if i == 0 {
+				return message.Invalid, err
+			}
 		default:
 			return message.Invalid, err
 		}
